@@ -107,7 +107,8 @@ Proof.
   - destruct (address_at pos false) as [a|] eqn:E; [|discriminate].
     rewrite (address_at_mono _ _ E). exact H.
   - destruct (eval code_ops (pvar names st pos false) e []) as [[v c]|] eqn:E; [|discriminate].
-    rewrite (eval_mono code_ops _ _ (pvar_mono names st pos) _ _ _ E). exact H.
+    rewrite (eval_mono code_ops _ _ (pvar_mono names st pos) _ _ _ E).
+    cbn [andb] in *. destruct (match v with VFailed => true | _ => false end); [discriminate|]. exact H.
   - destruct (nth_error (s_instr st) i) as [d|]; [|discriminate].
     destruct (resolve_encoding defs (pvar names st pos false) false (i_matches d)) as [[b|]|] eqn:E; try discriminate.
     rewrite (resolve_encoding_mono defs _ _ (pvar_mono names st pos) _ _ E). exact H.
